@@ -79,5 +79,11 @@ def encircled_energy(data,
     if eeDiameter is False:
         return xi, yi
     else:
-        ee50d = float(xi[numpy.argmin(numpy.abs(yi - fraction))])
+        # yi never decreases: take, of the two samples that bracket the crossing,
+        # the one nearest to the requested fraction (a plain argmin returns the
+        # start of a plateau, e.g. diameter 0 for an image with a dark centre)
+        idx = min(int(numpy.searchsorted(yi, fraction)), len(yi) - 1)
+        if idx > 0 and (fraction - yi[idx - 1]) < (yi[idx] - fraction):
+            idx -= 1
+        ee50d = float(xi[idx])
         return ee50d
